@@ -108,6 +108,9 @@ pub enum Fault {
     WriteErrorAfter(usize),
     /// a malformed line is spliced into the server's output right now
     Garbage(B),
+    /// the next write accepts only `short` bytes (0: skip this part), the write call after it fails
+    /// once with ErrorKind::Interrupted; later writes work again
+    WriteInterruptedOnce { short: usize },
 }
 
 #[derive(Debug, Clone, Serialize, Deserialize, PartialEq)]
@@ -126,6 +129,9 @@ pub enum Step {
     Fault(Fault),
     /// several steps without letting the client run in between (both become ready at once)
     Together(Vec<Step>),
+    /// the transport stops accepting writes (poll_write is Pending) - now, or after k more bytes
+    StallWrites(Option<usize>),
+    ResumeWrites,
 }
 
 #[derive(Debug, Clone, Serialize, Deserialize, PartialEq, Default)]
@@ -238,6 +244,10 @@ pub struct Shared {
     pub eof_at: Option<usize>,
     read_err_at: Option<usize>,
     write_err_countdown: Option<usize>,
+    write_interrupt: Option<(usize, bool)>,
+    pub write_stalled: bool,
+    stall_after: Option<usize>,
+    write_waker: Option<Waker>,
     pub peer_closed_writes_fail: bool,
     max_write: Option<usize>,
     pub activity: u64,
@@ -332,6 +342,23 @@ impl Shared {
         self.wake_reader();
     }
 
+    pub fn stall_writes(&mut self, after: Option<usize>) {
+        match after {
+            None | Some(0) => self.write_stalled = true,
+            Some(k) => self.stall_after = Some(k),
+        }
+        self.activity += 1;
+    }
+
+    pub fn resume_writes(&mut self) {
+        self.write_stalled = false;
+        self.stall_after = None;
+        self.activity += 1;
+        if let Some(w) = self.write_waker.take() {
+            w.wake();
+        }
+    }
+
     pub fn release_all(&mut self) {
         self.hold = false;
         self.publish();
@@ -357,6 +384,7 @@ impl Shared {
             Fault::EofAfter(k) => self.eof_at = Some(self.outbox.len().max(self.read_pos) + k),
             Fault::ReadErrorAfter(k) => self.read_err_at = Some(self.read_pos + k),
             Fault::WriteErrorAfter(k) => self.write_err_countdown = Some(*k),
+            Fault::WriteInterruptedOnce { short } => self.write_interrupt = Some((*short, *short == 0)),
             Fault::Garbage(g) => {
                 let mut l = g.0.clone();
                 l.push(b'\n');
@@ -718,11 +746,23 @@ impl AsyncRead for SimIo {
 }
 
 impl AsyncWrite for SimIo {
-    fn poll_write(self: Pin<&mut Self>, _cx: &mut Context<'_>, data: &[u8]) -> Poll<io::Result<usize>> {
+    fn poll_write(self: Pin<&mut Self>, cx: &mut Context<'_>, data: &[u8]) -> Poll<io::Result<usize>> {
         let mut s = self.0.lock().unwrap();
         s.polls += 1;
         s.tick();
+        if s.write_stalled {
+            s.write_waker = Some(cx.waker().clone());
+            return Poll::Pending;
+        }
         s.activity += 1;
+        if let Some((short, armed)) = s.write_interrupt {
+            if armed {
+                s.write_interrupt = None;
+                s.write_err_seen = true;
+                return Poll::Ready(Err(io::Error::new(io::ErrorKind::Interrupted, "harness: transient write error")));
+            }
+            let _ = short;
+        }
         if let Some(c) = s.write_err_countdown {
             if c == 0 {
                 s.write_err_seen = true;
@@ -734,7 +774,20 @@ impl AsyncWrite for SimIo {
             s.broken_pipe_seen = true;
             return Poll::Ready(Err(io::Error::new(io::ErrorKind::BrokenPipe, "harness: peer closed")));
         }
-        let n = s.max_write.map_or(data.len(), |m| m.max(1).min(data.len()));
+        let mut n = s.max_write.map_or(data.len(), |m| m.max(1).min(data.len()));
+        if let Some((short, false)) = s.write_interrupt {
+            n = n.min(short.max(1));
+            s.write_interrupt = Some((short, true));
+        }
+        if let Some(k) = s.stall_after {
+            n = n.min(k.max(1));
+            if k <= n {
+                s.stall_after = None;
+                s.write_stalled = true;
+            } else {
+                s.stall_after = Some(k - n);
+            }
+        }
         s.last_io_ms = s.now_ms;
         s.all_written.extend_from_slice(&data[..n]);
         let peer_gone = s.eof_at.is_some_and(|k| k <= s.outbox.len());
@@ -782,6 +835,10 @@ pub fn new_io(script: &Script, password: Option<Password>) -> (SimIo, Handle) {
         eof_at: None,
         read_err_at: None,
         write_err_countdown: None,
+        write_interrupt: None,
+        write_stalled: false,
+        stall_after: None,
+        write_waker: None,
         peer_closed_writes_fail: script.broken_pipe,
         max_write: script.max_write,
         activity: 0,
@@ -984,6 +1041,7 @@ pub struct Quiescent {
     pub unread: usize,
     pub hold: bool,
     pub ended: bool,
+    pub writes_stalled: bool,
 }
 
 #[derive(Debug)]
@@ -1231,6 +1289,8 @@ async fn drive(script: &Script, connect: Connect) -> Observation {
                 h.lock().unwrap().arm(f);
                 obs.fault_step = Some(si);
             }
+            Step::StallWrites(k) => h.lock().unwrap().stall_writes(*k),
+            Step::ResumeWrites => h.lock().unwrap().resume_writes(),
         }
         }
         settle(&h, &done).await;
@@ -1244,12 +1304,14 @@ async fn drive(script: &Script, connect: Connect) -> Observation {
             last_io_ms: s.last_io_ms,
             unread: s.unread(),
             hold: s.hold,
-            ended: s.dropped || s.eof_at.is_some() || s.read_err_at.is_some() || s.write_err_countdown.is_some(),
+            ended: s.dropped || s.eof_at.is_some() || s.read_err_at.is_some() || s.write_err_countdown.is_some() || s.write_err_seen,
+            writes_stalled: s.write_stalled || s.stall_after.is_some(),
         });
     }
 
     // epilogue: let everything drain, then require every request to resolve in virtual time
     gate.notify_one();
+    h.lock().unwrap().resume_writes();
     h.lock().unwrap().release_all();
     settle(&h, &done).await;
     for _ in 0..3 {
@@ -1267,7 +1329,8 @@ async fn drive(script: &Script, connect: Connect) -> Observation {
             last_io_ms: s.last_io_ms,
             unread: s.unread(),
             hold: s.hold,
-            ended: s.dropped || s.eof_at.is_some() || s.read_err_at.is_some() || s.write_err_countdown.is_some(),
+            ended: s.dropped || s.eof_at.is_some() || s.read_err_at.is_some() || s.write_err_countdown.is_some() || s.write_err_seen,
+            writes_stalled: s.write_stalled || s.stall_after.is_some(),
         });
     }
     for (i, r) in running.into_iter().enumerate() {
